@@ -181,17 +181,18 @@ TreeGrid(e, o, m, out) ==
 ---------------------------------------------------------------------------
 (* Grids on quad vectors *)
 
-QuadRowCls(Q, m, s, as) ==
+QuadRowCls(Q, m, s, as, bs) ==
     LET P == IF s > 3 THEN << >> ELSE Positions(Q, s)
     IN  [j \in 1..Len(as) |->
             IF m = "rank" THEN QuadRank(Q, s, P, as[j])
+            ELSE IF m = "rank_block_unchecked" THEN QuadRankBlock(Q, s, P, as[j], bs)
             ELSE IF m = "select" THEN QuadSelect(Q, s, P, as[j])
             ELSE IF m = "occs" THEN QuadOccs(Q, s, P)
             ELSE QuadOccsSmaller(Q, s)]
 
 QuadHasMethod(o, m) ==
     \/ m = "get"
-    \/ o.kind # "QV" /\ m \in {"rank", "select", "occs", "occs_smaller"}
+    \/ o.kind # "QV" /\ m \in {"rank", "select", "occs", "occs_smaller", "rank_block_unchecked", "prefetch_info", "prefetch_data"}
 
 QuadGrid(e, o, m, out) ==
     LET Q == SeqOf(o)
@@ -199,8 +200,10 @@ QuadGrid(e, o, m, out) ==
     IN  IF ~QuadHasMethod(o, m) THEN ResOk(0, {})
         ELSE IF m = "get"
         THEN JudgeRowI(e, o, pre, 1, [j \in 1..Len(e.as) |-> QuadGet(Q, e.as[j])], out[1])
+        ELSE IF m \in {"prefetch_info", "prefetch_data"}
+        THEN JudgeRowI(e, o, pre, 1, [j \in 1..Len(e.as) |-> PrefetchHint], out[1])
         ELSE Merge([r \in 1..Len(e.cs) |->
-                      JudgeRowI(e, o, pre, r, QuadRowCls(Q, m, e.cs[r], e.as), out[r])])
+                      JudgeRowI(e, o, pre, r, QuadRowCls(Q, m, e.cs[r], e.as, IF o.kind = "RSQ256" THEN 256 ELSE 512), out[r])])
 
 ---------------------------------------------------------------------------
 (* Grids on bit structures *)
@@ -208,6 +211,8 @@ QuadGrid(e, o, m, out) ==
 BitHasMethod(o, m) ==
     \/ m = "get"
     \/ o.kind \in {"BV", "BVM"} /\ m \in {"get_bits", "get_word"}
+    \/ o.kind = "BV" /\ m \in {"n_lines", "prefetch_line"}
+    \/ o.kind = "RSW" /\ m \in {"prefetch_info", "prefetch_data"}
     \/ o.kind \in {"RSN", "RSW"} /\ m \in {"rank1", "rank0", "select1", "select0"}
     \/ o.kind \in {"DA0", "DA1"} /\ m \in {"select1", "select0"}
 
@@ -225,6 +230,10 @@ BitGrid(e, o, m, out) ==
                        [j \in 1..Len(as) |-> BitGetBits(B, as[j][1], as[j][2])], out[1])
         ELSE IF m = "get_word"
         THEN JudgeRowV(e, o, pre, 1, [j \in 1..Len(as) |-> BitGetWord(B, as[j])], out[1])
+        ELSE IF m \in {"prefetch_line", "prefetch_info", "prefetch_data"}
+        THEN JudgeRowI(e, o, pre, 1, [j \in 1..Len(as) |-> PrefetchHint], out[1])
+        ELSE IF m = "n_lines"
+        THEN JudgeRowI(e, o, pre, 1, [j \in 1..Len(as) |-> Cl("n_lines", {(Len(B) + 511) \div 512})], out[1])
         ELSE IF m \in {"rank1", "rank0"}
         THEN LET P1 == Positions(B, 1)
              IN  JudgeRowI(e, o, pre, 1,
